@@ -655,6 +655,17 @@ example : sub 2 false false ⟨2, 2, 1, [3, 5]⟩ ⟨2, 2, 1, [3, 5]⟩ = ⟨2, 
 example : ui_sub 3 false 2 ⟨4, 4, 1, [B - 1, B - 1, B - 1, 1]⟩ = ⟨3, 1, -2, [1]⟩ := by decide
 
 
+/-! ### mpf_add_ui -/
+
+/-- mpf_add_ui (w < 2^64), its own code path add_ui.c: u ≷ 0, v = 0, v below the precision, gap between u and v,
+    overlap with carry, u < 1 — format rules and error bound in every case. -/
+theorem mpf_add_ui_err (prec : ℕ) (hp : 2 ≤ prec) (u : F) (w : ℕ) (hu : OpWF u) (hw : w < B) (rIsU : Bool)
+    (hau : rIsU = true → u.d.length ≤ prec + 1) :
+    Accurate prec (add_ui prec rIsU u w) (toQ u + w) :=
+  add_ui_accurate prec hp u w hu hw rIsU hau
+
+example : add_ui 2 false ⟨2, 2, 1, [3, 5]⟩ (B - 1) = ⟨2, 3, 2, [3, 4, 1]⟩ := by decide
+
 /-! ### mpf_mul_ui, mpf_set_d -/
 
 /-- mpf_mul_ui (w < 2^64): format rules, error bound, and exact when u has at most prec limbs
